@@ -27,3 +27,10 @@ package offsetcommit
 //@   layout v0..v7 Name string, Partitions []ResponsePartition
 //@ wire ResponsePartition
 //@   layout v0..v7 PartitionIndex int32, ErrorCode int16
+
+//@ property C12
+// Routing (C12): which of the protocol message interfaces the request satisfies decides where the Transport sends it
+// (connPool.sendRequest tests BrokerMessage, then GroupMessage, then TransactionalMessage).
+//@ wire Request
+//@   implements protocol.GroupMessage
+//@   notimplements protocol.BrokerMessage
